@@ -76,6 +76,13 @@ func run(r *hx.Run) error {
 	for i := 0; i < nq; i++ {
 		h.genQuery(i)
 	}
+	nr := 12
+	if r.Thorough {
+		nr = 120
+	}
+	for i := 0; i < nr; i++ {
+		h.genRace(i)
+	}
 	return nil
 }
 
@@ -295,6 +302,7 @@ func (h *H) runOps(ops []string) {
 	wf := false
 	var reports []report
 	var qops []qop
+	var rops []raceOp
 	id := "replay"
 	for _, op := range ops {
 		f := strings.Fields(op)
@@ -342,10 +350,18 @@ func (h *H) runOps(ops []string) {
 			if q, ok := parseQop(f); ok {
 				qops = append(qops, q)
 			}
+		case "race":
+			if q, ok := parseRaceOp(f); ok {
+				rops = append(rops, q)
+			}
 		}
 	}
 	if len(qops) > 0 {
 		h.queryCase(id, mask, qops)
+		return
+	}
+	if len(rops) > 0 {
+		h.raceCase(id, mask, rops)
 		return
 	}
 	if stream {
